@@ -142,7 +142,7 @@ SHAPES = [(vk, basis, ns) for vk in ("scalar", "array") for basis in ("cum", "in
 # row layouts handed out to the shapes of one operation in turn: regular triangle, INTERIOR GAPS in the
 # period rows, ragged rows
 LAYOUTS = ["triangle", "gappy", "triangle", "ragged"]
-BIG_SAMPLES = 1024          # "large sample" shape: >= 1000 samples per cell (a few cells suffice)
+BIG_SAMPLES = 6144          # "large sample" shape: above numpy/plot fast-path thresholds (1000, 5000); a few cells suffice
 
 
 def base_triangle(rng, vk, basis, n_slices, res=None, fields=None, n_periods=None, currency="USD",
@@ -192,7 +192,7 @@ def base_triangle(rng, vk, basis, n_slices, res=None, fields=None, n_periods=Non
 # ----------------------------------------------------------------------------------------------
 
 REGISTRY = {}
-SLOW_OPS = {"to_chain_ladder"}
+SLOW_OPS = {"to_chain_ladder", "from_chain_ladder(base_metadata)"}
 
 
 def op(name, chain=False, plot=False, res=None, basis=None, vk=None, variant=False):
@@ -667,6 +667,97 @@ def _(rng, t):
         r = bermuda.RichMatrix.from_triangle(a) if hasattr(bermuda.RichMatrix, "from_triangle") else None
         return (m, r)
     return (f, [t], {})
+
+
+# --- readers: EVERY argument is fingerprinted — the data frame / file, the column lists and the
+# `metadata=` default Metadata object (its loss_details share a key with a loss-detail column) ----------
+def default_meta():
+    return Metadata(country="US", currency="USD", details={"id": 0, "zone": "z"},
+                    loss_details={"cov": "dflt", "peril": "wind"})
+
+
+def wide_frame(t, incremental_ok=True):
+    rows = []
+    for c in t.cells:
+        row = {"period_start": pd.Timestamp(c.period_start), "period_end": pd.Timestamp(c.period_end),
+               "evaluation_date": pd.Timestamp(c.evaluation_date)}
+        if t.is_incremental:
+            row["prev_evaluation_date"] = pd.Timestamp(c.prev_evaluation_date)
+        row.update({k: float(np.mean(v)) for k, v in c.values.items()})
+        row["id"] = c.metadata.details.get("id", 1)
+        row["cov"] = c.metadata.loss_details.get("cov")        # None for every other slice: default applies
+        rows.append(row)
+    return pd.DataFrame(rows)
+
+
+def long_frame(t):
+    wide = wide_frame(t)
+    fields = [f for f in t.fields]
+    ids = [c for c in wide.columns if c not in fields]
+    return wide.melt(id_vars=ids, value_vars=fields, var_name="field", value_name="value")
+
+
+@op("from_wide_data_frame(metadata, detail_cols, loss_detail_cols)", vk="scalar")
+def _(rng, t):
+    return (lambda df, f, d, ld, m: Triangle.from_wide_data_frame(df, field_cols=f, detail_cols=d, loss_detail_cols=ld, metadata=m),
+            [wide_frame(t), list(t.fields), ["id", "cov"], ["cov"], default_meta()], {})
+
+
+@op("from_wide_data_frame(metadata, collapse_fields)", vk="scalar")
+def _(rng, t):
+    return (lambda df, d, ld, m, cf: Triangle.from_wide_data_frame(df, detail_cols=d, loss_detail_cols=ld, metadata=m, collapse_fields=cf),
+            [wide_frame(t), ["id", "cov"], ["cov"], default_meta(), ["earned_premium"]], {})
+
+
+@op("from_long_data_frame(metadata, loss_detail_cols)", vk="scalar")
+def _(rng, t):
+    return (lambda df, ld, m: Triangle.from_long_data_frame(df, loss_detail_cols=ld, metadata=m),
+            [long_frame(t), ["cov"], default_meta()], {})
+
+
+@op("from_wide_csv(metadata, detail_cols, loss_detail_cols)", vk="scalar")
+def _(rng, t):
+    path = tmp_path(".csv")
+    wide_frame(t).to_csv(path, index=False)
+    return (lambda fn, f, d, ld, m: Triangle.from_wide_csv(fn, field_cols=f, detail_cols=d, loss_detail_cols=ld, metadata=m),
+            [path, list(t.fields), ["id", "cov"], ["cov"], default_meta()], {})
+
+
+@op("from_long_csv(metadata, loss_detail_cols)", vk="scalar")
+def _(rng, t):
+    path = tmp_path(".csv")
+    long_frame(t).to_csv(path, index=False)
+    return (lambda fn, ld, m: Triangle.from_long_csv(fn, loss_detail_cols=ld, metadata=m),
+            [path, ["cov"], default_meta()], {})
+
+
+@op("from_array_data_frame(metadata)", vk="scalar", basis="cum", res=12)
+def _(rng, t):
+    df = first_slice(t).to_array_data_frame("paid_loss")
+    return (lambda d, f, m: Triangle.from_array_data_frame(d, f, metadata=m), [df, "paid_loss", default_meta()], {})
+
+
+@op("from_statics_data_frame(metadata)", vk="scalar", res=12)
+def _(rng, t):
+    periods = sorted({c.period_start for c in t.cells})
+    df = pd.DataFrame({"period": [str(p.year) for p in periods], "earned_premium": [100.0 + i for i in range(len(periods))]})
+    return (lambda d, e, m: Triangle.from_statics_data_frame(d, evaluation_date=e, metadata=m),
+            [df, max(t.evaluation_dates), default_meta()], {})
+
+
+@op("from_chain_ladder(base_metadata)", vk="scalar", basis="cum")
+def _(rng, t):
+    cl = first_slice(t).to_chain_ladder()
+    return (lambda c, m: Triangle.from_chain_ladder(c, base_metadata=m), [cl, default_meta()], {})
+
+
+@op("from_json / from_binary / from_dict (file and dict arguments)")
+def _(rng, t):
+    pj, pb = tmp_path(".json"), tmp_path(".trib")
+    t.to_json(pj)
+    t.to_binary(pb)
+    d = t.to_dict()
+    return (lambda a, b, c: (Triangle.from_json(a), Triangle.from_binary(b), Triangle.from_dict(c)), [pj, pb, d], {})
 
 
 # --- plot ---------------------------------------------------------------------------------------
